@@ -249,7 +249,79 @@ inline cocls::async<void> sp_driver(sp_world &W, const std::vector<sp_op> &ops, 
     }
 }
 
-inline std::string run_sp_history(const std::vector<sp_op> &ops, bool coro_mode, std::string &trace) {
+// A driver that runs OUTSIDE coroutine mode: a bare coroutine that ordinary code resumes with handle.resume() (what a foreign event
+// loop or callback does). No ready queue is active while it runs, so flushes behave as in normal mode, and `co_await sp` on a
+// non-empty suspend point must run the carried coroutines and continue the driver exactly once. The driver regularly returns to
+// ordinary code (yield); ordinary code checks that the driver never continued past a yield it was not resumed from.
+struct raw_task {
+    struct promise_type {
+        raw_task get_return_object() { return {std::coroutine_handle<promise_type>::from_promise(*this)}; }
+        std::suspend_always initial_suspend() noexcept { return {}; }
+        std::suspend_always final_suspend() noexcept { return {}; }
+        void return_void() {}
+        void unhandled_exception() { std::terminate(); }
+    };
+    std::coroutine_handle<promise_type> h;
+};
+struct raw_state { int continues = 0; bool finished = false; };
+inline raw_task sp_raw_driver(sp_world &W, const std::vector<sp_op> &ops, std::string &trace, raw_state &S) {
+    S.continues++;
+    for (size_t i = 0; i < ops.size() && W.err.empty(); i++) {
+        const sp_op &op = ops[i];
+        if (op.op == SP_PAUSE || op.op == SP_AWAIT_SELF) continue;
+        trace += std::string(spo_name(op.op)) + "(" + std::to_string(op.a) + (op.op == SP_MERGE || op.op == SP_MOVE_ASSIGN || op.op == SP_MOVE_CONSTRUCT ? "," + std::to_string(op.b) : "") + ") ";
+        if (op.op == SP_AWAIT) {
+            auto &A = W.obj[op.a];
+            if (!A) continue;
+            bool had = !W.model[op.a].empty();
+            W.flush_model(W.model[op.a]); // no queue active: they have all run when the driver continues; inside the temporary queue: queued
+            W.self_awaits++;
+            {
+                cocls::suspend_point<void> &spref = *A;
+                co_await spref;
+            }
+            W.self_continues++;
+            // a co_await that really suspended continues the driver from INSIDE the temporary ready queue the library installed: until the
+            // driver returns to ordinary code it runs in coroutine mode (flushes are queued, everything queued runs before ordinary code goes on)
+            if (had) { W.drain_queued(); W.coro_mode = true; }
+            if (W.self_continues != W.self_awaits && W.err.empty()) W.err = "driver outside coroutine mode continued " + std::to_string(W.self_continues) + " times for " + std::to_string(W.self_awaits) + " co_awaits on a suspend point";
+            if (A->size() != 0 && W.err.empty()) W.err = "suspend point not empty after co_await";
+            W.check("co_await (driver outside coroutine mode)");
+            if ((op.k & 1) || i + 1 == ops.size()) { trace += "yield "; co_await std::suspend_always{}; S.continues++; }
+        } else { sp_apply(W, op); W.check(spo_name(op.op)); }
+    }
+    trace += "yield ";
+    co_await std::suspend_always{}; // the last suspension before the end is always one that only ordinary code may end
+    S.continues++;
+    S.finished = true;
+}
+
+inline std::string run_sp_history(const std::vector<sp_op> &ops, bool coro_mode, std::string &trace, bool raw_mode = false) {
+    if (raw_mode) {
+        long arrays0 = g_arrays_live.load();
+        auto W = std::make_unique<sp_world>();
+        W->coro_mode = false;
+        raw_state S;
+        raw_task t = sp_raw_driver(*W, ops, trace, S);
+        int resumes = 0;
+        while (!S.finished && W->err.empty() && resumes < 1000) {
+            resumes++;
+            t.h.resume();
+            W->drain_queued(); W->coro_mode = false; // back in ordinary code: any temporary queue has been drained
+            if (W->err.empty()) W->check("driver returned to ordinary code");
+            if (S.continues != resumes && W->err.empty()) W->err = "driver outside coroutine mode continued past a suspension nobody ended (continued " + std::to_string(S.continues) + " times, resumed " + std::to_string(resumes) + " times by ordinary code)";
+            if (W->err.empty() && cocls::coro_queue::is_active()) W->err = "a ready queue is still active after the driver returned to ordinary code";
+        }
+        if (W->err.empty()) W->check("driver finished");
+        if (W->err.empty()) {
+            t.h.destroy();
+            for (int i = 0; i < sp_world::NOBJ; i++) if (W->obj[i]) { W->obj[i].reset(); W->flush_model(W->model[i]); }
+            W->check("final destruction");
+            for (int h = 0; h < W->nh && W->err.empty(); h++) if (W->counter[h] > 1) W->err = "handle resumed twice";
+            if (W->err.empty() && g_arrays_live.load() != arrays0) W->err = "heap array of a suspend point leaked or released twice (new[]/delete[] balance " + std::to_string(g_arrays_live.load() - arrays0) + ")";
+        } // on an error the driver frame is leaked on purpose (it may be resumed or destroyed in an unknown state)
+        return W->err;
+    }
     long arrays0 = g_arrays_live.load();
     auto W = std::make_unique<sp_world>();
     W->coro_mode = coro_mode;
@@ -284,6 +356,7 @@ inline void suspend_point_history(const vf::opts &o, vf::report &R, uint64_t his
         vf::set_crash_ctx(R.prop.c_str(), "suspend_point_history", o.seed, hn);
         int len = 1 + (int)r.below(r.chance(1, 5) ? 60 : 16);
         bool coro_mode = r.chance(1, 2);
+        bool raw_mode = !coro_mode && r.chance(1, 3); // driver is a bare coroutine resumed by ordinary code (no ready queue active)
         std::vector<sp_op> ops;
         int nobj = 2 + (int)r.below(5);
         for (int i = 0; i < len; i++) {
@@ -294,16 +367,16 @@ inline void suspend_point_history(const vf::opts &o, vf::report &R, uint64_t his
             else if (x < 44) { op.op = SP_ADD_MANY; op.k = sizes[r.below(12)]; }
             else if (x < 54) op.op = SP_MERGE; else if (x < 60) op.op = SP_MOVE_CONSTRUCT; else if (x < 66) op.op = SP_MOVE_ASSIGN;
             else if (x < 72) op.op = SP_POP; else if (x < 76) op.op = SP_POP_ALL; else if (x < 82) op.op = SP_CLEAR; else if (x < 88) op.op = SP_DESTROY;
-            else if (x < 92) op.op = SP_AWAIT; else if (x < 94) { op.op = SP_AWAIT_SELF; op.k = (int)r.below(16); } else if (x < 97) op.op = SP_TYPED; else op.op = SP_PAUSE;
+            else if (x < (raw_mode ? 94 : 92)) op.op = SP_AWAIT; else if (x < 94) { op.op = SP_AWAIT_SELF; op.k = (int)r.below(16); } else if (x < 97) op.op = SP_TYPED; else op.op = SP_PAUSE;
             ops.push_back(op);
         }
         std::string trace;
-        std::string err = run_sp_history(ops, coro_mode, trace);
+        std::string err = run_sp_history(ops, coro_mode, trace, raw_mode);
         R.cases++;
-        std::string desc = std::string(coro_mode ? "[coroutine mode] " : "[normal mode] ") + trace;
+        std::string desc = std::string(coro_mode ? "[coroutine mode] " : raw_mode ? "[bare coroutine resumed by ordinary code] " : "[normal mode] ") + trace;
         if (!err.empty()) { R.violation("monitor:conservation|suspend_point_history", err, vf::jobj().kv("history", (unsigned long long)hn).kv("ops", desc).kv("disagreement", err).str()); continue; }
         if (len >= 3) { R.nontrivial_cases++; R.sig(desc); }
-        R.cls(coro_mode ? "history_coroutine_mode" : "history_normal_mode");
+        R.cls(coro_mode ? "history_coroutine_mode" : raw_mode ? "history_driver_outside_coroutine_mode" : "history_normal_mode");
         if (R.samples.size() < 3 && len > 8) R.sample(vf::jobj().kv("ops", desc).kv("result", "every handle resumed exactly once; sizes agree after every step").str());
     }
 }
